@@ -32,7 +32,7 @@ REQUIRED_BUCKETS = {"quick": ["grid:linear", "grid:log", "n:1", "n:2..9", "n:10.
                               "acceptance:open", "acceptance:cut", "via:Gxi", "via:DirectModel", "wavelength:short",
                               "acceptance:on-data-tof", "acceptance:on-data-mono", "order:permuted",
                               "via:DirectModel:data-edited-in-place", "grid:log-full-range",
-                              "via:Gxi:long-log-grid", "linear:curves-ending-at-different-q", "via:Gxi:threads"]}
+                              "via:Gxi:long-log-grid", "linear:curves-ending-at-different-q", "via:Gxi:threads", "fault:allocation-fails:raised"]}
 REQUIRED_BUCKETS["thorough"] = REQUIRED_BUCKETS["quick"]
 
 
@@ -41,6 +41,8 @@ def gen_cases(tier, seed):
     cases = [{"id": "t/%04d" % k, "k": k, "seed": seed, "kind": "transform", "group": "g%d" % (k % 64)} for k in range(n)]
     cases.append({"id": "direct", "kind": "direct", "seed": seed, "group": "direct", "cost": 8})
     cases.append({"id": "threads", "kind": "threads", "seed": seed, "group": "threads", "cost": 8})
+    for k in range(2 if tier == "quick" else 10):
+        cases.append({"id": "fault/%d" % k, "kind": "fault", "k": k, "seed": seed, "group": "fault%d" % k, "cost": 3})
     return cases
 
 
@@ -346,7 +348,52 @@ def run_threads(case, rec):
     rec.set_shape(("threads",), True)
 
 
+def run_fault(case, rec):
+    """An allocation failure while the transform is being built (memory pressure on long grids): either the failure reaches
+    the caller, or whatever is returned is the transform."""
+    from sasmodels import sesans, direct_model
+    rng = core.rng_for(case["seed"], PROP, "fault", case["k"])
+    real = np.outer
+    for target in (1, 2):
+        for via in ("SesansTransform", "Gxi"):
+            xi = np.linspace(200.0, 8000.0, int(rng.integers(40, 90)))
+            rg = float(math.sqrt(1.5)/10**rng.uniform(-3.8, -2.9))
+            s_ = math.sqrt(2.0/3.0)*rg
+            exact = exact_pair(xi, [1.0], [s_])
+            count = [0]
+
+            def faulty(a, b, *args, **kw):
+                if np.size(a)*np.size(b) > 10000:
+                    count[0] += 1
+                    if count[0] == target:
+                        raise MemoryError("injected: allocation of the %d x %d matrix failed" % (np.size(a), np.size(b)))
+                return real(a, b, *args, **kw)
+            np.outer = faulty
+            outcome, got = None, None
+            try:
+                if via == "SesansTransform":
+                    T = sesans.SesansTransform(xi, xi, np.full(len(xi), 6.0), 2*math.pi/6.0, 1e7)
+                    qc = np.asarray(T.q_calc)
+                    got = np.asarray(T.apply(np.exp(-qc*qc*s_*s_/2)), float)
+                else:
+                    got = np.asarray(direct_model.Gxi("guinier", xi, rg=rg, scale=1.0, background=0.0), float)
+                outcome = "returned"
+            except MemoryError:
+                outcome = "MemoryError reached the caller"
+            finally:
+                np.outer = real
+            ok = outcome != "returned" or bool(np.all(np.abs(got - exact) <= 1e-3*float(np.max(np.abs(exact)))))
+            rec.check("gaussian_hankel_pair", ok,
+                      None if ok else {"via": via + " with the %d. large allocation failing once" % target, "injected": count[0] >= target,
+                                       "got": got[:5], "exact": exact[:5]})
+            rec.bucket("fault:allocation-fails:" + ("raised" if outcome != "returned" else "returned"))
+            rec.count("faults_injected", int(count[0] >= target))
+    rec.set_shape(("fault", case["k"]), True)
+
+
 def run_case(case, rec):
+    if case.get("kind") == "fault":
+        return run_fault(case, rec)
     if case.get("kind") == "threads":
         return run_threads(case, rec)
     if case["kind"] == "direct":
